@@ -1,6 +1,6 @@
 (* run/<Cxx>: every recorded run replayed against the model and judged by the monitors. *)
 From Coq Require Import String List Bool Arith ZArith.
-From Verif Require Import Base.ListX Base.Json Base.Free Pub.Events Pub.Replay Pub.Monitors Pub.SideEffect Pub.BaseActor Pub.Util.
+From Verif Require Import Base.ListX Base.Json Base.Free Pub.Events Pub.Replay Pub.Monitors Pub.SideEffect Pub.BaseActor Pub.Util Pub.DeliverySpec.
 Require Import Run.observed.
 Import ListNotations.
 Open Scope string_scope.
@@ -103,6 +103,20 @@ Definition gate_bad := Eval vm_compute in map (fun x => match x with (i, _, _, g
 Definition outcome_bad := Eval vm_compute in map (fun x => match x with (i, _, _, _, (o, _, _)) => (i, o) end) (filter (fun x => match x with (_, _, _, _, ((k, _), _, _)) => negb (Nat.eqb k 0) end) judged).
 Definition serve_bad := Eval vm_compute in map (fun x => match x with (i, _, _, _, (_, o, _)) => (i, o) end) (filter (fun x => match x with (_, _, _, _, (_, (k, _), _)) => negb (Nat.eqb k 0) end) judged).
 Definition hidden_bad := Eval vm_compute in map (fun x => match x with (i, _, _, _, (_, _, o)) => (i, o) end) (filter (fun x => match x with (_, _, _, _, (_, _, (k, _))) => negb (Nat.eqb k 0) end) judged).
+(* C02 on a recorded outbox run *)
+Definition delivery_verdict (u : run) : nat * string :=
+  if String.eqb (u_entry u) "postoutbox" || String.eqb (u_entry u) "send" then
+    delivery_judge (u_trace u)
+      (String.eqb (u_result u) "ok" && c_federating (u_cfg u) &&
+       (String.eqb (u_entry u) "send" || existsb (fun p => match fst p with EWriteHeader n => Nat.eqb n 201 | _ => false end) (u_trace u)))
+  else (0, "").
+Definition delivery_all := Eval vm_compute in map (fun p => (fst p, delivery_verdict (snd p))) (combine (seq 0 (length observed)) observed).
+Definition delivery_bad := Eval vm_compute in filter (fun x => Nat.eqb (fst (snd x)) 1) delivery_all.
+Definition delivery_stats := Eval vm_compute in
+  (length (filter (fun x => Nat.eqb (fst (snd x)) 2) delivery_all),
+   length (filter (fun u => match batches (u_trace u) with [] => false | _ => true end) observed),
+   length (filter (fun u => existsb (fun r => Nat.ltb 1 (length r)) (batches (u_trace u))) observed),
+   length (filter (fun u => Nat.ltb 2 (length (deref_events (u_trace u)))) observed)).
 Definition n_observed := Eval vm_compute in length observed.
 Print replay_bad.
 Print lock_bad.
@@ -110,4 +124,6 @@ Print gate_bad.
 Print outcome_bad.
 Print serve_bad.
 Print hidden_bad.
+Print delivery_bad.
+Print delivery_stats.
 Print n_observed.
